@@ -19,6 +19,8 @@ import traceback
 
 ROOT = os.path.dirname(os.path.dirname(os.path.abspath(__file__)))
 sys.setrecursionlimit(10000)
+import warnings  # noqa: E402
+warnings.filterwarnings('ignore', message='Generating overly large repr')
 
 from pbt.common.core import Ctx, HarnessError, Violation, enc  # noqa: E402
 
